@@ -397,6 +397,49 @@ fn main() {
         }
         cx.sink.log.lock().unwrap().script.clear();
     }
+    // a macro invoked from a thread-local's destructor at THREAD EXIT (set state only: unset it would panic inside a
+    // TLS destructor, which aborts by design of the runtime). The application's thread-local is initialised before the
+    // thread's first macro, so it is destroyed after whatever per-thread state the macros crate may keep.
+    if !unset {
+        use std::cell::RefCell;
+        struct AtExit(std::sync::Arc<std::sync::atomic::AtomicU8>);
+        impl Drop for AtExit {
+            fn drop(&mut self) {
+                statsd_count!("macro.at.thread.exit", 1);
+                statsd_time!("macro.at.thread.exit", 2u64, "a" => "b");
+                self.0.store(1, std::sync::atomic::Ordering::SeqCst);
+            }
+        }
+        thread_local! {
+            static AT_EXIT: RefCell<Option<AtExit>> = const { RefCell::new(None) };
+        }
+        let before = cx.sink.emit_count();
+        let mut expected = 0;
+        for guard_first in [true, false] {
+            let done = std::sync::Arc::new(std::sync::atomic::AtomicU8::new(0));
+            let d2 = done.clone();
+            let _ = std::thread::spawn(move || {
+                if guard_first {
+                    AT_EXIT.with(|g| *g.borrow_mut() = Some(AtExit(d2)));
+                    statsd_gauge!("macro.before.exit", 1u64);
+                } else {
+                    statsd_gauge!("macro.before.exit", 1u64);
+                    AT_EXIT.with(|g| *g.borrow_mut() = Some(AtExit(d2)));
+                }
+            })
+            .join();
+            expected += 3;
+            cx.rep.obs("macros_invoked_from_a_thread_local_destructor_at_thread_exit", 2);
+            if done.load(std::sync::atomic::Ordering::SeqCst) != 1 {
+                cx.violation("panic-iff-unset", "panic-with-client-set", "macros invoked from a thread-local destructor at thread exit did not complete although a global client is set".into(), Json::Null);
+            }
+        }
+        let sent = cx.sink.emit_count() - before;
+        if sent != expected && cx.sink_mode == "accept" {
+            cx.violation("single-emit", "emit-count", format!("{} macros around a thread's exit produced {} emits", expected, sent), Json::Null);
+        }
+        cx.sink.log.lock().unwrap().script.clear();
+    }
     if late_set {
         cx.rep.obs("macros_tried_before_set", 2);
         if early_panics != 2 {
